@@ -55,9 +55,6 @@ import (
 
 const (
 	c05_fMapLit    = "C05-map-literal-order"
-	c05_fDefaults  = "C05-func-defaults-error-order"
-	c05_fConvert   = "C05-conversion-error-order"
-	c05_fOverrides = "C05-overrides-abort-order"
 	c05_fSetNaN    = "C05-set-nan-order"
 )
 
@@ -1404,22 +1401,26 @@ func c05SiteFirstFailure(e *Env, n, reps int) {
 					perm = append(perm, j)
 				}
 			}
-			want := e.O.Ask("C05", "firstFailure", c05_permField(perm), strings.Join(flags, ","))
+			// since the repair of compileFunc the model walks the parameters in declaration order
+			// and only looks the defaults up: the visiting order handed over does not matter
+			want := e.O.Ask("C05", "funcDefaults", "impl", c05_permField(perm), strings.Join(flags, ","))
 			ok := (want == "none" && err == nil) || (reported >= 0 && flags[reported] == want) ||
 				// two parameters with the same unsupported text are indistinguishable in the message
 				(reported >= 0 && want != "none" && shown(params[reported]) == shown(params[func() int { v, _ := strconv.Atoi(want[1:]); return v }()]))
-			if !ok {
+			if !ok && agree {
 				agree = false
-				e.R.Mismatch(src, got, "first failure "+want, "compileFunc defaults against firstFailure")
-				break
+				e.R.Mismatch(src, got, "first failure in declaration order: "+want, "compileFunc defaults against funcDefaults")
 			}
 		}
+		_ = distinctBad
 		if len(seen) > 1 {
-			finding := ""
-			if len(distinctBad) >= 2 && agree {
-				finding = c05_fDefaults
+			// finding C05-func-defaults-error-order is fixed: a recurrence is an unlisted violation
+			var texts []string
+			for t := range seen {
+				texts = append(texts, t)
 			}
-			e.R.Spec(src, fmt.Sprintf("compile error text varies: %d different messages in %d compilations", len(seen), reps), finding)
+			sort.Strings(texts)
+			e.R.Spec(src, fmt.Sprintf("compile error text varies: %d different messages in %d compilations: %s", len(seen), reps, strings.Join(texts, " / ")), "")
 		}
 	}
 	// ---- conversions at the host boundary: a script map passed to a Go method
@@ -1427,29 +1428,33 @@ func c05SiteFirstFailure(e *Env, n, reps int) {
 		src     string
 		opts    func() []risor.Option
 		nBadMsg int
+		entries string            // key=ok|key=e<id> for the oracle (convertSorted)
+		texts   map[string]string // e<id> -> the text the error of that entry contains
 	}
 	cases := []conv{
-		{`s.F({"a": 1})`, nil, 0},
-		{`s.F({"a": "x"})`, nil, 1},
-		{`m := {"a": 1}; m["b"] = 2; m["c"] = 3; s.F(m)`, nil, 0},
-		{`m := {"a": "x"}; m["b"] = [1]; s.F(m)`, nil, 2},
-		{`m := {"a": "x"}; m["b"] = "y"; s.F(m)`, nil, 1},
-		{`m := {"A": "x"}; m["B"] = [1]; s.G(m)`, nil, 2},
-		{`m := {"A": 1}; m["B"] = 2; m["C"] = 3; s.G(m)`, nil, 0},
+		{`s.F({"a": 1})`, nil, 0, "a=ok", nil},
+		{`s.F({"a": "x"})`, nil, 1, "a=e0", map[string]string{"e0": "string given"}},
+		{`m := {"a": 1}; m["b"] = 2; m["c"] = 3; s.F(m)`, nil, 0, "a=ok,b=ok,c=ok", nil},
+		{`m := {"a": "x"}; m["b"] = [1]; s.F(m)`, nil, 2, "a=e0,b=e1", map[string]string{"e0": "string given", "e1": "list given"}},
+		{`m := {"z": "x"}; m["b"] = [1]; m["k"] = 1.5; m["c"] = 2; s.F(m)`, nil, 3, "z=e0,b=e1,k=e2,c=ok", map[string]string{"e0": "string given", "e1": "list given", "e2": "float given"}},
+		{`m := {"a": "x"}; m["b"] = "y"; s.F(m)`, nil, 1, "a=e0,b=e0", map[string]string{"e0": "string given"}},
+		{`m := {"A": "x"}; m["B"] = [1]; s.G(m)`, nil, 2, "A=e0,B=e1", map[string]string{"e0": "string given", "e1": "list given"}},
+		{`m := {"A": 1}; m["B"] = 2; m["C"] = 3; s.G(m)`, nil, 0, "A=ok,B=ok,C=ok", nil},
 		{`1`, func() []risor.Option {
 			return []risor.Option{risor.WithGlobals(map[string]any{"ga": make(chan int), "gb": complex64(1)})}
-		}, 2},
+		}, 2, "ga=e0,gb=e1", map[string]string{"e0": "chan", "e1": "complex64"}},
 		{`1`, func() []risor.Option {
 			return []risor.Option{risor.WithGlobals(map[string]any{"ga": make(chan int), "gb": 3})}
-		}, 1},
+		}, 1, "ga=e0,gb=ok", map[string]string{"e0": "chan"}},
 		{`[ga, gb, gc]`, func() []risor.Option {
 			return []risor.Option{risor.WithGlobals(map[string]any{"ga": 1, "gb": "x", "gc": []int{1, 2}})}
-		}, 0},
+		}, 0, "ga=ok,gb=ok,gc=ok", nil},
 	}
 	for _, c := range cases {
 		e.R.Case("conversion: "+c.src, true)
 		e.R.H("site_conversion_failing_kinds", strconv.Itoa(c.nBadMsg))
 		seen := map[string]bool{}
+		mism := false
 		for rep := 0; rep < reps*2; rep++ {
 			opts := []risor.Option{risor.WithGlobal("s", c05S{})}
 			if c.opts != nil {
@@ -1457,16 +1462,23 @@ func c05SiteFirstFailure(e *Env, n, reps int) {
 			}
 			out := EvalSrc(c.src, 5*time.Second, opts...)
 			seen[out.Value+"|"+out.Err] = true
-		}
-		// Impl (firstFailure): one outcome when at most one kind of failure is present
-		if c.nBadMsg <= 1 && len(seen) > 1 {
-			e.R.Mismatch("conversion: "+c.src, fmt.Sprintf("%d outcomes", len(seen)), "1 outcome", "firstFailure with <= 1 failing kind")
+			// Impl since the repair (convertSorted): the error of the smallest failing key,
+			// whatever the visiting order (asked under a rotating one)
+			nEnt := strings.Count(c.entries, ",") + 1
+			perm := make([]int, nEnt)
+			for j := range perm {
+				perm[j] = (j + rep) % nEnt
+			}
+			want := e.O.Ask("C05", "convert", "impl", c05_permField(perm), c.entries)
+			okc := (want == "none" && out.Err == "") || (want != "none" && out.Err != "" && strings.Contains(out.Err, c.texts[want]))
+			if !okc && !mism {
+				mism = true
+				e.R.Mismatch("conversion: "+c.src, out.Value+"|"+out.Err, "error of the smallest failing key: "+want+" ("+c.texts[want]+")", "conversion against convertSorted")
+			}
 		}
 		if len(seen) > 1 {
+			// finding C05-conversion-error-order is fixed: a recurrence is an unlisted violation
 			finding := ""
-			if c.nBadMsg >= 2 {
-				finding = c05_fConvert
-			}
 			var texts []string
 			for s := range seen {
 				texts = append(texts, s)
@@ -1554,18 +1566,16 @@ func c05SiteOverrides(e *Env, n, reps int) {
 			if len(applied) > 0 {
 				got = strings.Join(applied, ",")
 			}
-			if got != want {
-				e.R.Mismatch(caseKey, got, want, "applyOverrides against the model")
+			if got != want && agree {
+				// applyOverridesSorted: the overrides whose names sort before the smallest invalid name
+				e.R.Mismatch(caseKey+" script: "+src, "applied {"+got+"}", "applied {"+want+"}", "applyOverrides against applyOverridesSorted")
 				agree = false
-				break
 			}
 			seen[got] = true
 		}
 		if len(seen) > 1 {
+			// finding C05-overrides-abort-order is fixed: a recurrence is an unlisted violation
 			finding := ""
-			if nBad > 0 && nOk > 0 && agree {
-				finding = c05_fOverrides
-			}
 			var sets []string
 			for s := range seen {
 				sets = append(sets, "{"+s+"}")
@@ -2572,6 +2582,10 @@ func c05_runC05(e *Env) {
 		"against the entry of the table the model's mergeTables names (the last table of the slice that defines it), and scripts calling each shared name with 0/1/2/64/65/66/100 arguments, bare and under try, evaluated 48-64 times under default globals; " +
 		"non-trivial when >= 2 tables define the name; K: FSImporter over an in-memory filesystem that records every Open and delays chosen files (0-3 ms: the file the model picks, random, descending), extension lists (default or 1-4 custom in random order), " +
 		"0-4 candidate files per module name (70 % each) with different bodies, `import m` in a script or Import() by the host, 16-24 times: the file read and the files probed against pickExtension; non-trivial when >= 2 candidate files exist; " +
+		"L: programs of 1-5 declaring statements — multi-name from-imports of math/strings (1-5 names; plain, aliased, parenthesised on one or several lines, a name imported twice, two imports under one alias, an alias that the scope has already), " +
+		"destructuring assignments of 2-4 names, single declarations, functions with 0-4 parameters (trailing defaults) whose bodies hold 1-3 declaring statements — compiled by the real compiler 32-48 times in-process: instructions, constants, names and local symbols of every code object, " +
+		"GlobalNames() and the MarshalCode bytes must be identical in all compilations, and the global table and every function's local table must be the model's declProgram declStmt (slots in source order; asked under a random annotation per statement), for import-only programs also the StoreGlobal operands; non-trivial when a from-import introduces >= 2 names; " +
+		"C (first-failure loops) since their repair: compileFunc defaults against funcDefaults (the first unsupported default in declaration order), conversions of maps with 0-3 failing entries against convertSorted (the error of the smallest failing key), applyOverrides against applyOverridesSorted (the overrides sorting before the smallest invalid name); any variation is an unlisted violation; " +
 		"module-defined and OS-backed objects and error messages about such objects by repetition and the pointer rule only. A case is one program / one probe input; " +
 		"distinct by its text; non-trivial when it contains a map/set literal, a default argument or a map/set iteration (all A and B programs do), " +
 		"or, for probes, when the map has >= 2 entries. 7 of 8 programs stay inside the guard NoBigMap."
@@ -2591,6 +2605,12 @@ func c05_runC05(e *Env) {
 	}
 	// streams J and K (c05merge.go): tables merged in the fixed order of a slice (DefaultGlobals);
 	// candidates probed in a priority order (FSImporter's extension list) under filesystem latencies
+	// stream L (c05decl.go): declarations that introduce several names at once, compiled >= 32 times
+	timed("c05DeclSlots", func() { c05DeclSlots(e, min(nSite*2, 1200), max(32, min(reps, 48))) })
+	// the loops repaired in /repo (compileFunc defaults, conversions, applyOverrides) come next: a
+	// recurrence of one of those defects becomes the replay
+	timed("c05SiteFirstFailure", func() { c05SiteFirstFailure(e, nSite/3, reps*2) })
+	timed("c05SiteOverrides", func() { c05SiteOverrides(e, nSite/5, reps*2) })
 	timed("c05DefaultGlobalsMerge", func() { c05DefaultGlobalsMerge(e, min(reps*6, 64)) })
 	timed("c05ImportExtensions", func() { c05ImportExtensions(e, min(nSite, 400), min(reps*2, 24)) })
 	timed("c05SiteMounts", func() { c05SiteMounts(e, min(nSite, 600), min(reps*2, 48)) })
@@ -2606,8 +2626,6 @@ func c05_runC05(e *Env) {
 	timed("c05SiteSortedBy", func() { c05SiteSortedBy(e, nSite, reps) })
 	timed("c05ConfigModules", func() { c05ConfigModules(e, nSite/3, reps*2) })
 	timed("c05SiteEnviron", func() { c05SiteEnviron(e, nSite/3, reps*2) })
-	timed("c05SiteFirstFailure", func() { c05SiteFirstFailure(e, nSite/3, reps*2) })
-	timed("c05SiteOverrides", func() { c05SiteOverrides(e, nSite/5, reps*2) })
 	timed("c05SiteMockFS", func() { c05SiteMockFS(e, nSite/5, reps*4) })
 	timed("c05Config", func() { c05Config(e, nSite/10, reps) })
 	timed("c05BuiltinArgs", func() { c05BuiltinArgs(e, reps) })
